@@ -168,7 +168,10 @@ CLAIMS = {
                      "Assumes kids are not reused for different key material. Bounds: KSDesign_*.cfg."),
     "C16": dict(level="model_checking", ref="DESIGN.md §3 C16",
                 text="Device family (OPDesign_device.cfg, rules C16.*): histories of device_authorization / approve / deny / expire / poll by several "
-                     "clients; answers by state, client binding, subject and scopes of issued tokens; trace validation on both routers.",
+                     "clients (incl. requests naming two clients, storage time-outs and faults); answers by state, client binding, subject and scopes of "
+                     "issued tokens; trace validation on both routers. Plus the decision table spec/UserCode.tla for the device authorization response "
+                     "(user-code length, dash positions and alphabet computed in TLA+ per configuration; device-code length and distinctness; verification "
+                     "URIs on the issuer; lifetime and interval) through op.NewUserCode and POST /device_authorization of both routers.",
                 technique="TLA+ design spec model-checked with TLC; MBT replay + trace validation by the TLA+ monitor"),
 }
 
